@@ -2,6 +2,7 @@ package netsim
 
 import (
 	"bufio"
+	"context"
 	"encoding/json"
 	"fmt"
 	"os"
@@ -9,6 +10,7 @@ import (
 	"path/filepath"
 	"strings"
 	"sync"
+	"time"
 
 	"verif/harness/internal/hx"
 )
@@ -105,5 +107,56 @@ func Supervised(c *hx.Ctx, kind string, work func(c *hx.Ctx)) {
 		}
 		tail = s
 	}
-	c.Res.Fail(kind, fmt.Sprintf("the process running the syncers died (%v): %s", err, tail), map[string]any{"running": running})
+	// which of the running scenarios kills the process on its own? replay each in a child of its own
+	type culprit struct {
+		id   string
+		scen json.RawMessage
+		tail string
+	}
+	var mu sync.Mutex
+	var culprits []culprit
+	var wg sync.WaitGroup
+	tier := "quick"
+	if c.Thorough {
+		tier = "thorough"
+	}
+	i := 0
+	for id, scen := range running {
+		i++
+		wg.Add(1)
+		go func(i int, id string, scen json.RawMessage) {
+			defer wg.Done()
+			sub := filepath.Join(dir, fmt.Sprintf("crash-replay-%d", i))
+			os.MkdirAll(sub, 0o755)
+			rf := filepath.Join(sub, "replay.json")
+			b, _ := json.Marshal(map[string]any{"replay": map[string]any{"scenario": scen}})
+			os.WriteFile(rf, b, 0o644)
+			ctx, cancel := context.WithTimeout(context.Background(), 90*time.Second)
+			defer cancel()
+			ch := exec.CommandContext(ctx, os.Args[0], "-seed", fmt.Sprint(c.Seed), "-tier", tier, "-out", sub, "-replay", rf)
+			ch.Env = append(os.Environ(), workerEnv+"=1")
+			var eb strings.Builder
+			ch.Stderr = &eb
+			if rerr := ch.Run(); rerr != nil && ctx.Err() == nil {
+				t := eb.String()
+				if k := strings.Index(t, "panic:"); k >= 0 {
+					t = t[k:]
+				}
+				if len(t) > 1500 {
+					t = t[:1500]
+				}
+				mu.Lock()
+				culprits = append(culprits, culprit{id, scen, t})
+				mu.Unlock()
+			}
+		}(i, id, scen)
+	}
+	wg.Wait()
+	if len(culprits) == 0 {
+		c.Res.Fail(kind, fmt.Sprintf("the process running the syncers died (%v): %s (none of the %d running scenarios crashed again when replayed alone)", err, tail, len(running)), map[string]any{"running": running})
+		return
+	}
+	for _, cu := range culprits {
+		c.Res.Fail(kind, fmt.Sprintf("the process running the syncers died; scenario %s kills it when replayed alone: %s", cu.id, cu.tail), map[string]any{"scenario": cu.scen})
+	}
 }
